@@ -102,5 +102,24 @@ func Checks() map[string]*simcore.Check {
 				"reorg-reinjected", "demoted", "included-removed", "resurrect-clause-evaluated", "state-nonce-went-back", "delegated-account",
 				"add:inflight-limit", "add:replace-underpriced", "add:underpriced", "add:funds", "add:nonce-low", "soft-pending-limit-exceeded-legally"},
 		},
+		"C42": {
+			ID: "C42", Engine: "poolsim", Level: "fault_enumeration",
+			Rule: "plan = 3-5 accounts, Datacap 300 KiB-4 MiB (1-14 one-blob transactions), PriceBump 10-100%, 6-22 operations on the real BlobPool with its two billy stores under /dev/shm: Add of real version-1 blob transactions (1-3 blobs from a fixed pool with valid commitments and cell proofs, KZG-verified by the pool), replacements at the bump thresholds -1/0/+1 on tip, fee cap and blob fee cap, gapped nonces, head advance of 1-2 blocks including pooled, foreign blob and plain transactions with base-fee / blob-fee jumps, reorgs of depth 1-2 that re-include a planned subset, finality advances, SetGasTip, clean Close+reopen, and crash restarts: the data directory is imaged after the k-th store event (Put/Delete on queue or limbo store, k planned) of an operation or at its end, the process state is dropped without Close and a new pool is opened on the image (process-crash model at store-operation granularity); in 6% of Add operations one queue-store Put returns an injected I/O error. evaluations = runs; reboots = clean + dirty reopenings, each checked. Non-trivial = at least 2 accepted transactions and at least one of: a reboot, a limbo expectation evaluated, a capacity eviction. distinct = distinct event-log hashes.",
+			Assumptions: []string{
+				"billy is third-party code behind no geth seam: its files are copied between its calls; tearing inside a billy write (power loss) is out of scope",
+				"a crashed pool is reopened on the current chain head with the same configuration and minimum tip",
+				"billy does not journal deletions, so a crash image may hold entries the pool had deleted; the reopened contents are compared with the documented clean-up (recheck rules, minimum tip, capacity) of what the image physically holds; where two entries of one account share a nonce the survivor is unspecified and only the structural invariants are asserted for that account",
+				"balances only decrease through the account's own included transactions (Reset rechecks only the senders of included or reorged-out transactions)",
+				"eviction-heap order is compared pairwise (heap property) under the documented priority; pairs whose fee distance is within 0.03 jumps of a bucket boundary are skipped (the pool does not re-sort for fee moves below 0.01 jumps)",
+			},
+			Components: simcore.Components{
+				Real: []string{"core/txpool/blobpool BlobPool (Init, Add/addLocked, Reset/reorg/recheck/reinject/offload, SetGasTip, drop, Close), limbo, evictHeap, priority, lookup, slotter, conversion queue", "core/txpool validation (incl. KZG cell proof verification)", "github.com/holiman/billy on tmpfs", "core/state StateDB on an in-memory database"},
+				Stub: []string{"chain (blobpool.BlockChain incl. CurrentFinalBlock): block tree with planned heads, reorgs, finality", "store observer/fault injector around the two billy handles", "address reserver handle (real tracker, single pool)"}},
+			Perturbed: []string{"map iteration order inside the pool", "wall-clock time (gapped-buffer lifetime of one minute is never reached)"},
+			Runs:      map[string]int{"quick": 320, "thorough": 12000},
+			Gen:       genBP, Decode: decodeBP, Run: runBP, Shrink: shrinkBP,
+			ProbeNames: []string{"accepted", "limbo-entry-expected", "limbo-entry-finalised", "reorg-return-expected", "evicted-for-capacity", "clean-restart", "recovery-checked",
+				"recovery-capacity-cut", "recovery-ambiguous-duplicate-nonce", "heap-pair-compared", "replacement-attempted", "get-roundtrip", "put-error-survived"},
+		},
 	}
 }
